@@ -793,10 +793,10 @@ class Frame(object):
             # Integrate in time direction to capture temporal variations more
             # accurately
             if integrate_t_profile:
-                new_ts = np.linspace(self.ts[0],
-                                     self.ts[0] + self.tchans * self.dt,
-                                     self.tchans * t_subsamples,
-                                     endpoint=False)
+                # Sub-samples of each row start at that row's own time (the time axis of e.g. 
+                # a consolidated cadence has gaps)
+                new_ts = (self.ts[:, np.newaxis] 
+                          + np.arange(t_subsamples) * self.dt / t_subsamples).ravel()
                 y = t_profile(new_ts)
                 if not isinstance(y, np.ndarray):
                     y = np.repeat(y, self.tchans * t_subsamples)
@@ -826,10 +826,9 @@ class Frame(object):
             # Average using integration to get a better position in frequency
             # direction
             if integrate_path:
-                new_ts = np.linspace(self.ts[0],
-                                     self.ts[0] + tchans_eff * self.dt,
-                                     tchans_eff * t_subsamples,
-                                     endpoint=False)
+                row_ts = self.ts_ext if doppler_smearing else self.ts
+                new_ts = (row_ts[:, np.newaxis] 
+                          + np.arange(t_subsamples) * self.dt / t_subsamples).ravel()
                 f = path(new_ts)
                 if not isinstance(f, np.ndarray):
                     f = np.repeat(f, tchans_eff * t_subsamples)
